@@ -3,5 +3,6 @@ CONSTANTS
   MaxFrags = 1
   MaxNodes = 3
   FieldPool = {}
+  Extended = {}
 INVARIANTS Emit
 CHECK_DEADLOCK FALSE
